@@ -62,7 +62,10 @@ def _corpus_item(seed):
     s0 = sheets[0]
     rows0 = s0['_rows']
     other = sheet_ref(titles[1])
-    fs = ['=A1+A2', '=SUM(A1:A%d)' % rows0, '=IF(A1>A2,"x",B1)', '=%sA1+1' % other, '=SUM(%sA1:A2)*2' % other,
+    # string literals of formulas are copied into the generated source verbatim: characters that Python's str.splitlines
+    # (but not the tokenizer) treats as line ends, non-ASCII, quotes
+    odd = r.choice(['a\u2028b', 'n\u0085l', 'p\u2029q', 'é✓', 'tab\there'])
+    fs = ['=A1+A2', '=SUM(A1:A%d)' % rows0, '=IF(A1>A2,"x",B1)', '=%sA1+1' % other, '=SUM(%sA1:A2)*2' % other, '=IF(A1>0,"%s","n")' % odd, '=B1&"%s"' % odd,
           '=VLOOKUP(A1,A1:B%d,2,FALSE())' % rows0, '=A1&"k"&B1', '=AVERAGE(A:A)', '=COUNTIFS(A1:A%d,">2")' % rows0,
           '=ROUND(A1/3,2)', '=C1+1', '=MAX(A1:B2)']
     r.shuffle(fs)
